@@ -272,4 +272,89 @@ theorem nested_send_is_enqueue (m : Machine) (isBase : Exc → Bool) (fuel : Nat
   rw [runP_rtc]
   simp [nestedRtc, enqueue, processRtc, EM.modify, EM.bind_apply, bind, hl, pure]
 
+/-! ## `callbacks.py`: wrappers and executors -/
+
+/-- a wrapper of a guard (`expected_value` True for `cond`, False for `unless`) hands back whether the callback's
+value, read as a truth value, is the expected one; a wrapper of an action hands back the value itself — for both ways
+of invoking it (`call`, and `__call__` which also awaits an awaitable) -/
+theorem wrapper_meaning (truthy : Val → Bool) (v : Val) (e : Bool) :
+    tailW truthy (some e) v (Expected.wrapperCall.drop 1) = .bool (truthy v == e) ∧
+    tailW truthy none v (Expected.wrapperCall.drop 1) = .val v ∧
+    tailW truthy (some e) v (Expected.wrapperDunder.drop 1) = .bool (truthy v == e) ∧
+    tailW truthy none v (Expected.wrapperDunder.drop 1) = .val v := by
+  simp [Expected.wrapperCall, Expected.wrapperDunder, tailW]
+
+theorem guardLoop_runConds (h : Nested) (m : Machine) (x : Ctx) (ws : List WStmt)
+    (hw : ∀ v e, tailW m.truthy (some e) v (ws.drop 1) = .bool (m.truthy v == e)) (hi : ws.head? = some .invoke)
+    (gs : List (CbId × Bool)) :
+    guardLoop (fun c => runCb h m x .cond c) m.truthy ws gs = runConds h m x gs := by
+  obtain ⟨r, rfl⟩ : ∃ r, ws = .invoke :: r := by
+    cases ws with
+    | nil => simp at hi
+    | cons a r => simp at hi; exact ⟨r, by rw [hi]⟩
+  induction gs with
+  | nil => rfl
+  | cons g gs ih =>
+    obtain ⟨c, e⟩ := g
+    simp only [guardLoop, runW, runConds, bind_assoc, pure_bind]
+    refine bind_congr fun v => ?_
+    have := hw v e
+    simp only [List.drop_succ_cons, List.drop_zero] at this
+    rw [this]
+    cases hb : (m.truthy v == e) <;> simp [ih]
+
+/-- the `all` script over the wrapper script is `runConds`: conjunction, left to right, stop at the first guard whose
+truth value is not the expected one -/
+theorem runXG_all (h : Nested) (m : Machine) (x : Ctx) (gs : List (CbId × Bool)) :
+    runXG (fun c => runCb h m x .cond c) m.truthy Expected.wrapperCall Expected.execAll gs = runConds h m x gs := by
+  have hg := guardLoop_runConds h m x Expected.wrapperCall
+    (fun v e => (wrapper_meaning m.truthy v e).1) rfl gs
+  simp only [Expected.execAll, runXG, hg]
+  rw [← bind_pure (runConds h m x gs)]
+  simp only [bind_assoc, pure_bind]
+  refine bind_congr fun ok => ?_
+  cases ok <;> simp
+
+/-- … and so is `async_all` over `__call__` (guards are awaited one after the other: the repair of D11) -/
+theorem runXG_async_all (h : Nested) (m : Machine) (x : Ctx) (gs : List (CbId × Bool)) :
+    runXG (fun c => runCb h m x .cond c) m.truthy Expected.wrapperDunder Expected.execAsyncAll gs
+      = runConds h m x gs := by
+  have hg := guardLoop_runConds h m x Expected.wrapperDunder
+    (fun v e => (wrapper_meaning m.truthy v e).2.2.1) rfl gs
+  simp only [Expected.execAsyncAll, runXG, hg]
+  rw [← bind_pure (runConds h m x gs)]
+  simp only [bind_assoc, pure_bind]
+  refine bind_congr fun ok => ?_
+  cases ok <;> simp
+
+theorem callEach_runGroup (h : Nested) (m : Machine) (x : Ctx) (ph : Phase) (ws : List WStmt)
+    (hw : ∀ v, tailW m.truthy none v (ws.drop 1) = .val v) (hi : ws.head? = some .invoke) (cs : List CbId) :
+    callEach (fun c => runCb h m x ph c) m.truthy ws cs = runGroup h m x ph cs := by
+  obtain ⟨r, rfl⟩ : ∃ r, ws = .invoke :: r := by
+    cases ws with
+    | nil => simp at hi
+    | cons a r => simp at hi; exact ⟨r, by rw [hi]⟩
+  induction cs with
+  | nil => rfl
+  | cons c cs ih =>
+    simp only [callEach, runW, runGroup, bind_assoc, pure_bind]
+    refine bind_congr fun v => ?_
+    have := hw v
+    simp only [List.drop_succ_cons, List.drop_zero] at this
+    rw [this, ih]
+
+/-- the `call` script is `runGroup` over the callbacks whose `condition` holds for the event (`applicable`) -/
+theorem runXA_call (h : Nested) (m : Machine) (x : Ctx) (ph : Phase) (ev : EventId) (specs : List CbSpec) :
+    runXA (fun c => runCb h m x ph c) m.truthy Expected.wrapperCall ev Expected.execCall specs
+      = runGroup h m x ph (applicable ev specs) := by
+  simp only [Expected.execCall, runXA]
+  exact callEach_runGroup h m x ph _ (fun v => (wrapper_meaning m.truthy v true).2.1) rfl _
+
+/-- … and so is `async_call` (tasks spawned for the applicable callbacks, gathered; read sequentially) -/
+theorem runXA_async_call (h : Nested) (m : Machine) (x : Ctx) (ph : Phase) (ev : EventId) (specs : List CbSpec) :
+    runXA (fun c => runCb h m x ph c) m.truthy Expected.wrapperDunder ev Expected.execAsyncCall specs
+      = runGroup h m x ph (applicable ev specs) := by
+  simp only [Expected.execAsyncCall, runXA]
+  exact callEach_runGroup h m x ph _ (fun v => (wrapper_meaning m.truthy v true).2.2.2) rfl _
+
 end SMV.Src
